@@ -1,6 +1,7 @@
 # C03 Message integrity / fragmentation — dispatch, slice geometry agreement, completion guard, keyed reassembly
 import re
 from sa.rules import *
+import rules.wave3 as W3
 SC = "channel::slice_constructor::SliceConstructor"
 
 def rules(t):
@@ -171,4 +172,6 @@ def rules(t):
     rr = C15.index_agreement(t); rr.id = "C03.h"
     for v in rr.violations: v.rule = "C03.h"; v.key = "C03.h|" + v.key.split("|", 1)[1]
     out.append(rr)
+    out.append(W3.wire_narrowing(t, "C03.i"))
+    out.append(W3.emit_once(t, "C03.j"))
     return out
